@@ -21,7 +21,7 @@ theorem decodeLoop_spec (T : Table) (lens : List Nat) (more : Bool) (hl : ∀ l 
       ∃ out left, decodeLoop T lens more fuel b acc = .ok (out, left) ∧
         consumedOf out ++ left = consumedOf acc.reverse ++ b ∧
         (∀ o ∈ out, GoodOut o) ∧
-        (left ≠ [] → HeldBack left more) ∧
+        (left ≠ [] → HeldBack T left more) ∧
         (∃ sfx, out = acc.reverse ++ sfx) := by
   intro fuel
   induction fuel with
@@ -69,23 +69,38 @@ theorem decodeLoop_spec (T : Table) (lens : List Nat) (more : Bool) (hl : ∀ l 
 theorem processRead_spec (T : Table) (lens : List Nat) (hl : ∀ l ∈ lens, 0 < l) (left chunk : Bytes) :
     ∃ out left', processRead T lens left chunk = .ok (out, left') ∧
       consumedOf out ++ left' = left ++ chunk ∧ (∀ o ∈ out, GoodOut o) ∧
-      (left' ≠ [] → HeldBack left' (chunk.length == bufSize)) := by
+      (left' ≠ [] → HeldBack T left' (chunk.length == bufSize)) := by
   unfold processRead
   obtain ⟨out, left', h1, h2, h3, h4, _⟩ :=
     decodeLoop_spec T lens (chunk.length == bufSize) hl ((left ++ chunk).length + 1) (left ++ chunk) []
       (by omega) (by simp)
   exact ⟨out, left', h1, by simpa [consumedOf] using h2, h3, h4⟩
 
-theorem readAll_spec (T : Table) (lens : List Nat) (hl : ∀ l ∈ lens, 0 < l) :
+theorem readAll_spec (T : Table) (lens : List Nat) (eof : Bool) (hl : ∀ l ∈ lens, 0 < l) :
     ∀ (chunks : List Bytes) (left : Bytes) (acc : List Out), (∀ o ∈ acc, GoodOut o) →
-      ∃ out left', readAll T lens chunks left acc = .ok (out, left') ∧
+      ∃ out left', readAll T lens eof chunks left acc = .ok (out, left') ∧
         consumedOf out ++ left' = consumedOf acc ++ left ++ chunks.flatten ∧
-        (∀ o ∈ out, GoodOut o) := by
+        (∀ o ∈ out, GoodOut o) ∧
+        (eof = true → left' ≠ [] → HeldBack T left' false) := by
   intro chunks
   induction chunks with
   | nil =>
     intro left acc hacc
-    exact ⟨acc, left, rfl, by simp, hacc⟩
+    simp only [readAll]
+    cases eof with
+    | false => exact ⟨acc, left, rfl, by simp, hacc, by simp⟩
+    | true =>
+      obtain ⟨out, left', h1, h2, h3, h4, _⟩ :=
+        decodeLoop_spec T lens false hl (left.length + 1) left [] (by omega) (by simp)
+      simp only [if_true]
+      rw [h1]
+      refine ⟨acc ++ out, left', rfl, ?_, ?_, fun _ => h4⟩
+      · rw [consumedOf_append, List.append_assoc, h2]
+        simp [consumedOf]
+      · intro o ho
+        rcases List.mem_append.1 ho with h | h
+        · exact hacc o h
+        · exact h3 o h
   | cons c cs ih =>
     intro left acc hacc
     simp only [readAll]
@@ -97,8 +112,8 @@ theorem readAll_spec (T : Table) (lens : List Nat) (hl : ∀ l ∈ lens, 0 < l) 
       rcases List.mem_append.1 ho with h | h
       · exact hacc o h
       · exact h3 o h
-    obtain ⟨out2, left2, g1, g2, g3⟩ := ih left' (acc ++ out) hacc'
-    refine ⟨out2, left2, g1, ?_, g3⟩
+    obtain ⟨out2, left2, g1, g2, g3, g4⟩ := ih left' (acc ++ out) hacc'
+    refine ⟨out2, left2, g1, ?_, g3, g4⟩
     rw [g2, consumedOf_append]
     simp only [List.flatten_cons, List.append_assoc]
     rw [← List.append_assoc (consumedOf out), h2]
